@@ -18,6 +18,9 @@ ASSUMPTIONS = [
     "a first episode of every length 0..n (every history prefix), reset(), then every complete history; a twin with the same observers on a "
     "fresh dispatcher performs only the second history; after the reset and after each step all public observer state, the dispatcher state "
     "and query answers must be equal (symbolic leaves by z3 equality)",
+    "late sub-spaces: the observers are created on a dispatcher that has already dispatched a prefix (and answered queries), then reset()",
+    "shared-graph sub-spaces: two environments built from one JobShopGraph object; after playing in one, reset() of the other must equal a "
+    "brand-new environment",
     "env mode: SingleJobShopGraphEnv - first episode prefix, env.reset(), second episode, against a fresh environment: observation, reward, "
     "done, truncated and the graph must be equal at every step",
 ]
@@ -58,12 +61,17 @@ def subspaces(tier):
             continue
         out += C.structure_subspaces(s3, 2, False, canonical=(tier == "quick"), mode="observers", kinds=[k])
         out += C.structure_subspaces(D.shapes(2, 2), 2, True, only_flexible=True, mode="observers", kinds=[k])
+    for k in KINDS:
+        if k != "composite":
+            out += C.structure_subspaces(D.shapes(2, 3), 2, False, canonical=True, mode="observers", kinds=[k], late=True)
     fixed = [([2, 1], [[0], [1], [0]]), ([1, 1, 1], [[0], [1], [1]])]
     for sh, ms in (fixed[:1] if tier == "quick" else fixed):
         for a, b in itertools.permutations(KINDS, 2):
             if valid_order([a, b]):
                 out.append(dict(shape=sh, machines=ms, mode="observers", kinds=[a, b]))
     envs = [dict(builder=b, reward=r, obs=o) for b in ("disj", "at") for r in ("mk", "idle") for o in (0, 1, 2)]
+    for e in (envs[0], envs[7]):
+        out += C.structure_subspaces(D.shapes(2, 3), 2, False, canonical=True, mode="env", shared_graph=True, **e)
     if tier == "quick":
         envs = [envs[i] for i in (0, 4, 7, 11)]
     for e in envs:
@@ -143,9 +151,11 @@ def harness(eng, sp):
         return env_harness(eng, sp, inst, desc)
     kinds = sp["kinds"]
     A, B = Dispatcher(inst), Dispatcher(inst)
+    late = sp.get("late")
     try:
         for k in kinds:
-            make(k, A, inst)
+            if not late:
+                make(k, A, inst)
             make(k, B, inst)
     except E.Unsupported:
         raise
@@ -159,6 +169,12 @@ def harness(eng, sp):
             op, m = D.choose_dispatch(eng, desc, s1)
             A.dispatch(D.op_by_id(inst, op), m)
             s1.apply(op, m)
+        if late:
+            # the observers are created only now, on a dispatcher that has already dispatched; after reset() they must equal new ones
+            A.current_time()
+            A.uncompleted_operations()
+            for k in kinds:
+                make(k, A, inst)
         A.reset()
     except E.Unsupported:
         raise
@@ -196,13 +212,13 @@ OBS_CFGS = [
 ]
 
 
-def make_env(sp, inst):
+def make_env(sp, inst, graph=None):
     from job_shop_lib.dispatching import DispatcherObserverConfig
     from job_shop_lib.dispatching.feature_observers import FeatureObserverType
     from job_shop_lib.graphs import build_disjunctive_graph, build_agent_task_graph
     from job_shop_lib.reinforcement_learning import SingleJobShopGraphEnv, MakespanReward, IdleTimeReward
 
-    g = (build_disjunctive_graph if sp["builder"] == "disj" else build_agent_task_graph)(inst)
+    g = graph if graph is not None else (build_disjunctive_graph if sp["builder"] == "disj" else build_agent_task_graph)(inst)
     cfgs = [DispatcherObserverConfig(FeatureObserverType(t)) for t in OBS_CFGS[sp["obs"]]]
     rw = MakespanReward if sp["reward"] == "mk" else IdleTimeReward
     return SingleJobShopGraphEnv(g, cfgs, reward_function_config=DispatcherObserverConfig(rw), ready_operations_filter=None)
@@ -216,6 +232,8 @@ def env_state(env, step_result):
 
 
 def env_harness(eng, sp, inst, desc):
+    if sp.get("shared_graph"):
+        return shared_graph_harness(eng, sp, inst, desc)
     try:
         A, B = make_env(sp, inst), make_env(sp, inst)
     except E.Unsupported:
@@ -260,3 +278,40 @@ def env_harness(eng, sp, inst, desc):
         eng.reachable("state")
         D.prove_snap_equal(eng, env_state(A, ra), env_state(B, rb), "C12/env/differs-from-fresh-in-second-episode")
     eng.observe("mk", A.dispatcher.schedule.makespan())
+
+
+def shared_graph_harness(eng, sp, inst, desc):
+    """Two environments built from ONE JobShopGraph object: playing in one must not leak into the other, whose reset() must give
+    what a brand-new environment gives."""
+    from job_shop_lib.graphs import build_disjunctive_graph, build_agent_task_graph
+
+    g = (build_disjunctive_graph if sp["builder"] == "disj" else build_agent_task_graph)(inst)
+    try:
+        X, Y, F = make_env(sp, inst, graph=g), make_env(sp, inst, graph=g), make_env(sp, inst)
+        X.reset()
+        Y.reset()
+        s1 = Spec(desc)
+        for _ in range(1 + eng.choice(desc.n_ops, "steps-in-the-other-env")):
+            op, m = D.choose_dispatch(eng, desc, s1)
+            X.step((desc.job_of[op], m))
+            s1.apply(op, m)
+        ry = Y.reset()
+        rf = F.reset()
+    except E.Unsupported:
+        raise
+    except E.PathAbort:
+        raise
+    except Exception as ex:
+        eng.fail(f"C12/env/shared-graph-raises-{type(ex).__name__}", f"{ex}"[:200])
+        return
+    eng.reachable("state")
+    D.prove_snap_equal(eng, env_state(Y, ry), env_state(F, rf), "C12/env/shared-graph-object/differs-from-fresh-after-reset")
+    spec = Spec(desc)
+    for _ in range(desc.n_ops):
+        op, m = D.choose_dispatch(eng, desc, spec)
+        ry = Y.step((desc.job_of[op], m))
+        rf = F.step((desc.job_of[op], m))
+        spec.apply(op, m)
+        eng.reachable("transition")
+        D.prove_snap_equal(eng, env_state(Y, ry), env_state(F, rf), "C12/env/shared-graph-object/differs-from-fresh-in-episode")
+    eng.observe("mk", Y.dispatcher.schedule.makespan())
